@@ -1366,13 +1366,13 @@ def selfcheck():
 
 
 SUBCHECKS = [
-    SubCheck('sequences', lambda: _strategy(4), run_sequence, quick=2200, thorough=12000),
+    SubCheck('sequences', lambda: _strategy(4), run_sequence, quick=2000, thorough=6000),
     # lag time / bioavailability first, then absorption and transit requests
-    SubCheck('dose_attributes', lambda: _strategy_dose_attributes(5), run_sequence, quick=640, thorough=4000),
+    SubCheck('dose_attributes', lambda: _strategy_dose_attributes(5), run_sequence, quick=640, thorough=2000),
     # longer histories only in the thorough tier
     SubCheck('sequences6', lambda: _strategy(6), run_sequence, quick=0, thorough=6000),
     # every entry of MFL feature tables built from statements with several values (enumerated grid)
     SubCheck('feature_table', None, run_table, quick=0, thorough=0, enumerate=enumerate_table),
     # drug / metabolite peripherals on drug-metabolite models
-    SubCheck('metabolite_peripherals', _strategy_met, run_met, quick=320, thorough=3000),
+    SubCheck('metabolite_peripherals', _strategy_met, run_met, quick=320, thorough=1500),
 ]
